@@ -53,6 +53,16 @@ pub enum AuthCase {
     DuplicateValidLast,
     /// "Basic " + base64 of something without a colon
     NoColon,
+    /// the valid token without any scheme
+    BareToken,
+    /// "Basic Basic <valid token>"
+    DoubledScheme,
+    /// "Basic" + TAB + valid token
+    TabSeparator,
+    /// " Basic <valid token>" (leading space inside the value on HTTP/2; OWS on HTTP/1.1)
+    LeadingSpace,
+    /// "Basic " and nothing else
+    SchemeOnly,
 }
 
 #[derive(Clone, Debug, Serialize, Deserialize, PartialEq)]
@@ -266,7 +276,12 @@ fn draw_auth(rng: &mut Rng, focus: Focus, n_users: usize) -> AuthCase {
     if rng.below(10) >= stress {
         return valid;
     }
-    match rng.below(16) {
+    match rng.below(21) {
+        16 => AuthCase::BareToken,
+        17 => AuthCase::DoubledScheme,
+        18 => AuthCase::TabSeparator,
+        19 => AuthCase::LeadingSpace,
+        20 => AuthCase::SchemeOnly,
         0 => AuthCase::Absent,
         1 => AuthCase::WrongUser,
         2 => AuthCase::WrongPass,
@@ -685,6 +700,11 @@ fn header_bytes_inner(plan: &ReqPlan, a: &AuthCase) -> Vec<Vec<u8>> {
             format!("Basic {}", tok(0)).into_bytes(),
         ],
         AuthCase::NoColon => vec![format!("Basic {}", b64("justoneword".into())).into_bytes()],
+        AuthCase::BareToken => vec![tok(0).into_bytes()],
+        AuthCase::DoubledScheme => vec![format!("Basic Basic {}", tok(0)).into_bytes()],
+        AuthCase::TabSeparator => vec![format!("Basic\t{}", tok(0)).into_bytes()],
+        AuthCase::LeadingSpace => vec![format!(" Basic {}", tok(0)).into_bytes()],
+        AuthCase::SchemeOnly => vec![b"Basic ".to_vec()],
     }
 }
 
@@ -1214,8 +1234,10 @@ fn authorised(plan: &ReqPlan, r: &Req) -> Authz {
     let by_header = match r.auth {
         AuthCase::Valid(_) => Authz::Yes,
         // optional whitespace around a field value is not part of it on an HTTP/1.1 wire
-        AuthCase::TrailingSpace if !plan.h2 => Authz::Yes,
-        AuthCase::TrailingSpace => Authz::Either,
+        AuthCase::TrailingSpace | AuthCase::LeadingSpace if !plan.h2 => Authz::Yes,
+        AuthCase::TrailingSpace | AuthCase::LeadingSpace => Authz::Either,
+        // a tab is not the single space of RFC 7617, but it is whitespace: either
+        AuthCase::TabSeparator => Authz::Either,
         // RFC 7235: the scheme is case-insensitive; RFC 4648: padding may be required
         AuthCase::LowerScheme | AuthCase::UnpaddedBase64 => Authz::Either,
         AuthCase::DuplicateValidFirst | AuthCase::DuplicateValidLast => Authz::Either,
